@@ -189,6 +189,13 @@ pub(crate) enum ProtocolStateType {
     Halted
 }
 
+/// Adds a (user-configured, possibly huge) duration to a timepoint without overflowing: a sum too far in the
+/// future to be represented is clamped to a timepoint a century away.
+pub(crate) fn add_duration_saturating(base: Instant, duration: Duration) -> Instant {
+    const FAR_FUTURE: Duration = Duration::from_secs(100 * 365 * 24 * 3600);
+    base.checked_add(duration).unwrap_or_else(|| base + FAR_FUTURE)
+}
+
 pub(crate) fn is_connection_established(state: ProtocolStateType) -> bool {
     state == ProtocolStateType::Connected
 }
@@ -1331,14 +1338,15 @@ impl ProtocolState {
         }
 
         if let Some(timeout_duration) = timeout_duration_option {
-            let timeout = now + timeout_duration;
+            // a timeout too far in the future to be represented never fires
+            if let Some(timeout) = now.checked_add(timeout_duration) {
+                let timeout_record = OperationTimeoutRecord {
+                    id,
+                    timeout
+                };
 
-            let timeout_record = OperationTimeoutRecord {
-                id,
-                timeout
-            };
-
-            self.operation_ack_timeouts.push(Reverse(timeout_record));
+                self.operation_ack_timeouts.push(Reverse(timeout_record));
+            }
         }
     }
 
